@@ -4,7 +4,7 @@
     reflective obligation over the generated inventory Gen/MapRanges.v, which is closed by
     [vm_compute]. *)
 From Coq Require Import ZArith NArith List Bool Permutation Sorted String.
-From Verif Require Import Gov.Model Gov.VoteOrder Gov.VprProofs Determ.Sorting Determ.Export Determ.Agree Determ.BlockState Determ.Shapes.
+From Verif Require Import Gov.Model Gov.VoteOrder Gov.VprProofs Determ.Sorting Determ.Export Determ.Agree Determ.BlockState Determ.Refuse Determ.Shapes.
 From Verif Require Import Gen.MapRanges.
 Import ListNotations.
 Open Scope Z_scope.
@@ -166,6 +166,25 @@ Theorem C02_discarded_production_breaks_precondition_refuted :
     disk_total (d_vpr (snd (fst (apply_tx c no d m1 t)))) <> disk_total (d_vpr (snd (fst (apply_tx c no d m2 t)))).
 Proof. exact exec_depends_on_memory_refuted. Qed.
 Print Assumptions C02_discarded_production_breaks_precondition_refuted.
+
+(** (d'') which discard paths reload the process-wide rank.  A block the validator executed and
+    then REFUSED (chain.executeBlock calls cs.Update(bestBlock) = dpos.Status.Update rollback branch
+    = InitVPR(state of best) + CommitParams(false)) leaves no residue, whatever it contained; the
+    same branch serves reorganisations.  Only the producer's own unconnected block is not covered
+    (F12, above). *)
+Theorem C02_refused_block_leaves_no_residue : forall c g xs, refuse_block c g xs = refuse_block c g [].
+Proof. exact refused_block_leaves_no_residue. Qed.
+Print Assumptions C02_refused_block_leaves_no_residue.
+
+(** seeded/C02-r4 (reload skipped when the status already stands on the target block): the refused
+    block's rank changes stay in memory and the valid sibling applies them a second time. *)
+Theorem C02_refused_block_keeps_residue_seeded_refuted :
+  exists c g xs ys,
+    g_m g = reload c (g_d g) /\
+    disk_total (d_vpr (g_d (exec_txs c (refuse_block_seeded c g xs) ys)))
+    <> disk_total (d_vpr (g_d (exec_txs c (refuse_block_seeded c g []) ys))).
+Proof. exact refused_block_keeps_residue_seeded_refuted. Qed.
+Print Assumptions C02_refused_block_keeps_residue_seeded_refuted.
 
 (** (e) NO INFORMATION: [exec_block] is a Gallina function, so repeating an execution gives
     the same result by reflexivity.  Stated only to make explicit that the model has no hidden
